@@ -22,7 +22,9 @@ SourceKinds == {"src", "timer", "fb"}
 ActiveIns(n) ==
     CASE n.kind \in SourceKinds -> {}
       [] n.kind \in {"sample", "sample2", "sampleu", "elem0"} -> {1}
-      [] n.kind = "elem1"       -> {2}       \* elem0 / elem1: element 0 / 1 of a list output packed from two inputs    \* sample2 / sampleu: sum2 / sumu with a passive second input
+      [] n.kind \in {"elem1", "psum2a"} -> {2}   \* psum2a: sum2 whose FIRST input is used passively
+      [] n.kind = "sum3"        -> {1, 2, 3}
+      [] n.kind = "elem1x"      -> {2}       \* (unused) elem0 / elem1: element 0 / 1 of a list output packed from two inputs    \* sample2 / sampleu: sum2 / sumu with a passive second input
       [] n.kind \in {"sum2", "sumu", "keymix", "lsum", "lsumv"} -> {1, 2}
       [] OTHER                  -> {1}
 
@@ -33,7 +35,8 @@ ValidIns(n) ==
       [] n.kind = "elem0"       -> {1}
       [] n.kind = "elem1"       -> {2}
       [] n.kind = "lsumv"       -> {}        \* a list input is valid as soon as one element is
-      [] n.kind \in {"sum2", "sample", "sample2", "keymix", "lsum"} -> {1, 2}   \* lsum: all-valid list input
+      [] n.kind \in {"sum2", "sample", "sample2", "psum2a", "keymix", "lsum"} -> {1, 2}
+      [] n.kind = "sum3" -> {1, 2, 3}   \* lsum: all-valid list input
       [] OTHER                  -> {1}
 
 \* does the kind produce an output at all
@@ -50,7 +53,8 @@ HasOutput(n) == n.kind \notin {"rec"}
 F(n, iv, iok, s) ==
     CASE n.kind = "pass"   -> [w |-> TRUE, v |-> iv[1], s |-> s]
       [] n.kind = "add"    -> [w |-> TRUE, v |-> iv[1] + n.k, s |-> s]
-      [] n.kind \in {"sum2", "sample2", "lsum"} -> [w |-> TRUE, v |-> iv[1] + iv[2], s |-> s]
+      [] n.kind \in {"sum2", "sample2", "psum2a", "lsum"} -> [w |-> TRUE, v |-> iv[1] + iv[2], s |-> s]
+      [] n.kind = "sum3" -> [w |-> TRUE, v |-> iv[1] + iv[2] + iv[3], s |-> s]
       [] n.kind = "lsumv" -> [w |-> TRUE, v |-> (IF iok[1] THEN iv[1] ELSE 0) + (IF iok[2] THEN iv[2] ELSE 0), s |-> s]
       [] n.kind \in {"sumu", "sampleu"} -> [w |-> TRUE, v |-> iv[1] + (IF iok[2] THEN iv[2] ELSE 0), s |-> s]
       [] n.kind = "sample" -> [w |-> TRUE, v |-> iv[2], s |-> s]
